@@ -402,6 +402,66 @@ class TwinDriver:
         return (self.key_of(ctx, 0), ctx.enabled, ctx.postponed)
 
 
+# -- (a2) a controller instance handed from one entity to another ------------
+def run_move(case):
+    """The same Controller instance is given to a second entity before (or
+    after) its first attachment is torn down.  At the end it is attached to
+    entity 2 only and must know exactly that."""
+    give, tear, order, disabled = case
+    w = desper.World()
+    k = K('k')
+    w.create_entity(k, A('a1'), entity_id=1)
+    steps = ['give', 'tear'] if order == 'give_first' else ['tear', 'give']
+    if disabled:
+        w.dispatch_enabled = False
+    for step in steps:
+        if step == 'give':
+            if give == 'create':
+                w.create_entity(k, X('x2'), entity_id=2)
+            else:
+                w.add_component(2, k)
+        else:
+            if tear == 'remove':
+                w.remove_component(1, K)
+            elif tear == 'delete_now':
+                w.delete_entity(1, immediate=True)
+            else:
+                w.delete_entity(1)
+                if order == 'tear_first' or not disabled:
+                    pass
+    if disabled:
+        w.dispatch_enabled = True
+    if tear == 'delete':
+        w.process(1)
+    owners = [e for e in (1, 2) if w.get_component(e, K) is k]
+    if owners != [2]:
+        raise Violation('controller_moves', f'{case}: owners {owners}')
+    if order == 'give_first' and (k.world is not w or k.entity != 2):
+        # the removal that arrives later concerns the *older* attachment
+        raise Violation(
+            'controller_knows_entity_and_world',
+            f'{case}: controller attached to entity 2 only has entity = '
+            f'{k.entity!r}, world {"ok" if k.world is w else k.world!r}',
+            op='move', twin=0)
+    if order == 'give_first':
+        got = lab(k.get_components())
+        want = lab(w.get_components(2))
+        if got != want or k.has_component(K) is not True:
+            raise Violation('shorthand_same_result',
+                            f'{case}: get_components through the moved '
+                            f'controller -> {got}, World -> {want}',
+                            op='read_after_move')
+    return {'calls': 4, 'hits': {'controller_handed_to_another_entity': 1,
+                                 'moved_' + order: 1},
+            'key': repr(case)}
+
+
+def move_cases():
+    return [(g, t, o, d) for g in ('create', 'add')
+            for t in ('remove', 'delete_now', 'delete')
+            for o in ('give_first', 'tear_first') for d in (0, 1)]
+
+
 # -- (b) Prototype shapes ----------------------------------------------------
 def _mk(name):
     return type(name, (), {'__init__': lambda self, tag='default':
@@ -588,6 +648,10 @@ def run(tier, rep):
                      subclass_override=1, listeners_0=1, listeners_3=1)
     for name, (driver, kw) in drivers(tier).items():
         kernel.explore(driver, rep, part=name, params=driver.params(), **kw)
+    rep.require_hits(controller_handed_to_another_entity=1,
+                     moved_give_first=1)
+    kernel.enumerate_cases(run_move, move_cases(), rep, 'controller-moves',
+                           chunk=4)
     kernel.enumerate_cases(run_prototype, prototype_cases(), rep,
                            'prototype-shapes', chunk=100)
     dts = (0, 1, 0.5, -2, 10 ** 9, 1e-9)
@@ -600,7 +664,9 @@ def run(tier, rep):
 def replay(rec):
     part = rec['part']
     case = kernel.totuple(rec['case'])
-    if part == 'prototype-shapes':
+    if part == 'controller-moves':
+        runner = run_move
+    elif part == 'prototype-shapes':
         runner = run_prototype
     elif part == 'on-update':
         runner = run_on_update
